@@ -11,9 +11,10 @@ REQUIRED = ['C05.mem_findPeaks', 'C05.mem_findTroughs', 'C05.findPeaks_sorted', 
             'C05.paddedExtrema_none_iff', 'C05.parabolic_within_half', 'C05.parabolic_strictMono',
             'C05.padOdd_strictMono', 'C05.padOdd_interior', 'C05.padOddOnce_mirror',
             'C05.paddedExtrema_structure', 'C05.paddedExtrema_covers', 'C05.paddedExtrema_terminates',
-            'C05.envGrid_eq_range', 'C05.envGridPinned_fractional_witness',
-            'C05.interpEnvelope_never_raises', 'C05.interpEnvelope_at_sample',
-            'C05.upper_passes_through_peaks', 'C05.lower_passes_through_troughs']
+            'C05.envGrid_eq_range', 'C05.envGridPinned_offsets', 'C05.envGridPinned_fractional_witness',
+            'C05.interpEnvelope_never_raises', 'C05.interpEnvelope_at_sample', 'C05.interpEnvelope_none_iff',
+            'C05.upper_passes_through_peaks', 'C05.lower_passes_through_troughs',
+            'C05.combined_passes_through_abs_peaks']
 TRUSTED = ['the interpolant (scipy splrep/splev, PchipInterpolator, pchip) is an oracle: the model receives its values at the sample '
            'indices 0..n-1 as a table, rebuilt by the harness with the same scipy constructor from the extrema that the real '
            'interp_envelope(ret_extrema=True) returned on the same run',
